@@ -376,7 +376,73 @@ def r14_5(prog: Program, rep):
            and "entry.xor_offset <= current_idx" in src.replace("current_idx >= entry.xor_offset", "entry.xor_offset <= current_idx"), "", f.node.lineno)
 
 
+def r14_6(prog: Program, rep):
+    """Partial acceleration never answers.  In the bitmap reachability provider, when a lookup of bitmaps comes back
+    incomplete (fewer bitmaps than commits asked for, or a bitmap that cannot be resolved) no non-None result is
+    reachable any more: the caller falls back to graph traversal.  And the two providers mean the same thing by
+    'reachable objects' (the fallback walks the ancestry like a bitmap does)."""
+    m = prog.module(OS_PY)
+    f = m.funcs.get("BitmapReachability._combine_commit_bitmaps")
+    if f is None:
+        raise AnalysisError("BitmapReachability._combine_commit_bitmaps not found")
+    g = cfg_of(prog, f)
+    good_rets = [i for i, n in g.nodes.items() if n.kind == "stmt" and isinstance(n.ast, ast.Return) and n.ast.value is not None
+                 and not (isinstance(n.ast.value, ast.Constant) and n.ast.value.value is None)]
+    if not good_rets:
+        raise AnalysisError("_combine_commit_bitmaps: no result return found")
+    n = 0
+    for a in [x for x in ast.walk(f.node) if isinstance(x, ast.Assign) and isinstance(x.value, ast.Call) and callee_name(x.value) == "find_commit_bitmaps"
+              and isinstance(x.targets[0], ast.Name) and x.value.args and isinstance(x.value.args[0], ast.Name)]:
+        v, s_ = a.targets[0].id, a.value.args[0].id
+        tests = []
+        for i, nd in g.nodes.items():
+            if nd.kind != "test" or not isinstance(nd.ast, ast.Compare) or len(nd.ast.ops) != 1:
+                continue
+            l, r = norm(nd.ast.left), norm(nd.ast.comparators[0])
+            if {l, r} != {f"len({v})", f"len({s_})"}:
+                continue
+            op = nd.ast.ops[0]
+            if isinstance(op, ast.Eq):
+                tests.append((i, "false"))
+            elif isinstance(op, ast.NotEq):
+                tests.append((i, "true"))
+            elif isinstance(op, (ast.Lt, ast.LtE)):
+                # canonical form: smaller on the left; `len(found) < len(asked)` is the incomplete case
+                tests.append((i, "true" if l == f"len({v})" else "false"))
+        n += 1
+        bad = []
+        for i, lab in tests:
+            start = [b for b, l_ in g.succ[i] if l_ == lab]
+            r_ = reach(g, start, include_srcs=True)
+            bad += [x for x in good_rets if x in r_]
+        rep.ob("R14.6", m.rel, f.qual, f"when fewer bitmaps than `{s_}` were found no result is returned (fallback)", bool(tests) and not bad,
+               ("no completeness test of the lookup" if not tests else "a result is still returned when the lookup was incomplete") +
+               ": part of the request (e.g. the whole exclude set) is silently left out, so the answer depends on which commits happen to have a bitmap",
+               a.lineno)
+    for a in [x for x in ast.walk(f.node) if isinstance(x, ast.Assign) and isinstance(x.value, ast.Call) and callee_name(x.value) == "get_bitmap"
+              and isinstance(x.targets[0], ast.Name)]:
+        v = a.targets[0].id
+        tests = [i for i, nd in g.nodes.items() if nd.kind == "test" and norm(nd.ast) == f"{v} is None"]
+        n += 1
+        bad = []
+        for i in tests:
+            r_ = reach(g, [b for b, l_ in g.succ[i] if l_ == "true"], include_srcs=True)
+            bad += [x for x in good_rets if x in r_]
+        rep.ob("R14.6", m.rel, f.qual, f"an unresolvable bitmap (`{v} is None`) ends in the fallback, never in a partial result", bool(tests) and not bad,
+               "the loop is left (break/continue) and a result built from the bitmaps seen so far is returned", a.lineno)
+    if n < 3:
+        raise AnalysisError(f"_combine_commit_bitmaps: expected >= 3 bitmap lookups, found {n}")
+    fb = m.funcs.get("GraphTraversalReachability.get_reachable_objects")
+    if fb is None:
+        raise AnalysisError("GraphTraversalReachability.get_reachable_objects not found")
+    rep.ob("R14.6", m.rel, fb.qual, "the fallback's 'reachable objects' walks the ancestry (same meaning as a commit's bitmap)",
+           any(isinstance(c, ast.Call) and callee_name(c) in ("get_reachable_commits", "_collect_ancestors") for c in ast.walk(fb.node)),
+           "the fallback returns only the objects of the listed commits themselves while a bitmap covers all ancestors: the same query "
+           "has two answers depending on whether a .bitmap file exists", fb.node.lineno)
+
+
 def run(prog: Program, rep, tier="quick"):
+    rep.rule("R14.6", "partial acceleration never answers: incomplete bitmap lookups end in the fallback; both providers mean the same closure")
     rep.rule("R14.5", "XOR-compressed bitmap entries are resolved against the RESOLVED base (recursive get_bitmap), never against stored bits")
     rep.rule("R14.1", "commit-graph: a miss falls back to the store at every use site; the graph replaces only the default "
                       "parents function; grafts/shallows consulted first")
@@ -391,6 +457,7 @@ def run(prog: Program, rep, tier="quick"):
     r14_3(prog, rep)
     r14_4(prog, rep)
     r14_5(prog, rep)
+    r14_6(prog, rep)
     rep.floor("R14.1", 6)
     rep.floor("R14.2", 8)
     rep.floor("R14.3", 4)
